@@ -208,6 +208,11 @@ impl Engine {
                 return None;
             }
         };
+        Some(Engine::from_ring(ring, prof, sq, direct))
+    }
+
+    /// Build the engine around an existing ring.
+    pub fn from_ring(ring: a10::Ring, prof: Profile, sq: u32, direct: bool) -> Engine {
         let sqh = alloc::a10(|| ring.sq());
         let mut w = World {
             ring: Some(ring),
@@ -228,7 +233,7 @@ impl Engine {
             }
         }
         let ring_id = kernel::with(|k| k.rings.len() - 1);
-        Some(Engine {
+        Engine {
             prof,
             w: std::mem::ManuallyDrop::new(w),
             tasks: std::mem::ManuallyDrop::new(Vec::new()),
@@ -239,7 +244,7 @@ impl Engine {
             faults_on: true,
             closes: Vec::new(),
             step_no: 0,
-        })
+        }
     }
 
     fn live_tasks(&self) -> Vec<usize> {
@@ -1189,6 +1194,53 @@ impl Engine {
                 );
             }
         }
+    }
+
+    /// Fill the submission queue to exactly `entries` submissions: all of
+    /// them must be accepted, one more must wait.
+    pub fn fill_sq_probe(&mut self, entries: u32) {
+        let keep = kernel::with(|k| std::mem::replace(&mut k.cfg.p_yield_act, 0));
+        let fd = self.w.live_fds()[0];
+        let first = self.tasks.len();
+        for n in 0..=entries {
+            let id = self.tasks.len() as u32;
+            let made = ops::make(&mut self.w, Kind::Truncate, Some(fd), None, n as u8);
+            self.tasks.push(Task {
+                id,
+                kind: Kind::Truncate,
+                name: made.name,
+                task: Some(made.task),
+                expect: made.expect,
+                fd: Some(fd),
+                wakers: TaskWakers::new(id),
+                polled: false,
+                last_pending: false,
+                last_item: false,
+                finished: false,
+                dropped: false,
+                outputs: Vec::new(),
+                matched: 0,
+                blocked_on_sq: false,
+            });
+            self.poll_task(first + n as usize);
+        }
+        let (pending, sqpoll) = kernel::with(|k| {
+            let r = &k.rings[self.ring_id];
+            (r.sq_pending(), r.sqpoll())
+        });
+        if !sqpoll && pending != entries {
+            violation(
+                "build.unusable-ring",
+                format!("a submission queue granted with {entries} entries accepted {pending} submissions"),
+            );
+        }
+        if !sqpoll && !self.tasks[first + entries as usize].blocked_on_sq {
+            violation(
+                "build.unusable-ring",
+                format!("submission #{} was not made to wait on a queue of {entries} entries", entries + 1),
+            );
+        }
+        kernel::with(|k| k.cfg.p_yield_act = keep);
     }
 
     /// One step of the generated program.
